@@ -27,7 +27,7 @@ func (vc *VC) reset() {
 	vc.tyTypes = map[int]types.Type{}
 	vc.fldTags = map[string]int{}
 	vc.memSorts = map[string]string{}
-	vc.addrTerms = map[string]map[Term]bool{}
+	vc.addrTerms = map[string]map[Term]*addrUse{}
 	vc.havocs = nil
 	vc.closures = map[Term]*closureInfo{}
 	vc.fnTerms = map[Term]*ssa.Function{}
@@ -74,6 +74,9 @@ func (vc *VC) wf(st *State, v Term, t types.Type) {
 func (vc *VC) Generate() {
 	if vc.loopMod == nil {
 		vc.loopMod = map[string]map[string]string{}
+	}
+	if vc.facetNames == nil {
+		vc.facetNames = map[string]bool{"$target": true}
 	}
 	for pass := 0; pass < 4; pass++ {
 		vc.reset()
